@@ -218,7 +218,8 @@ impl BinArchive {
         let data_size = cursor.read_u32(endian)?;
         let pointer_count = cursor.read_u32(endian)?;
         let label_count = cursor.read_u32(endian)?;
-        let text_start = (data_size + (pointer_count * 4) + (label_count * 8)) as usize;
+        let text_start =
+            data_size as usize + (pointer_count as usize * 4) + (label_count as usize * 8);
         if text_start + 0x20 > bytes.len() {
             return Err(ArchiveError::ArchiveTooSmall);
         }
